@@ -48,6 +48,18 @@ def _glue_sources(fn: ast.AST) -> List[Tuple[str, str, ast.AST, bool]]:
                 out.append((name, "builtin", st, False))
             if isinstance(v, ast.Attribute) and v.attr == MODULE_ATTR:
                 out.append((name, "module", st, False))
+            if isinstance(v, (ast.BoolOp, ast.IfExp)):
+                # `x = a or REG.pop(k, None)` / `x = a if a else REG.pop(k, None)`: the registry read sits in a short-circuited
+                # operand, so it happens on some paths only.  Such a source is marked "cond": it is a read of that registry
+                # (x may hold its glue) but never counts as the removal that must precede a glue call.
+                guarded = list(v.values[1:]) if isinstance(v, ast.BoolOp) else [v.body, v.orelse]
+                for op in guarded:
+                    for c in ast.walk(op):
+                        if isinstance(c, ast.Call) and isinstance(c.func, ast.Attribute):
+                            if norm(c.func.value) == PENDING and c.func.attr in ("pop", "get", "setdefault"):
+                                out.append((name, "builtin", st, "cond" if c.func.attr == "pop" else False))
+                            elif c.args and isinstance(c.args[0], ast.Constant) and c.args[0].value == MODULE_ATTR and c.func.attr in ("pop", "get"):
+                                out.append((name, "module", st, "cond" if c.func.attr == "pop" else False))
     return out
 
 
@@ -123,6 +135,8 @@ def glue_rules(ctx: Ctx) -> None:
 
     # ---- GLUE-1 pop-before-call: for each registry, a *removing* read dominates every glue call
     for name, kind, st, removing in srcs:
+        if removing == "cond":
+            continue  # decided below: a conditional removal cannot be the one that dominates a glue call
         if not removing:
             ctx.R.fail("GLUE-1", mod, st, f"the {kind} glue reference is read without being removed from its registry: the same glue runs again at the next scan (never twice is violated)",
                        construct=f"{name} = {norm(st.value)[:80]}")
@@ -131,11 +145,14 @@ def glue_rules(ctx: Ctx) -> None:
     for c in gcalls:
         cn = g.node_of(_stmt(mod, c))
         for kind, lst in (("built-in", bsrc), ("module-provided", msrc)):
-            if any(removing and g.dominates(src_node(st), cn) for _, _, st, removing in lst):
+            if any(removing is True and g.dominates(src_node(st), cn) for _, _, st, removing in lst):
                 ctx.R.ok("GLUE-1", f"`{norm(c)}`: the {kind} reference was already removed from its registry")
             else:
+                condn = [norm(st.value)[:80] for _, _, st, removing in lst if removing == "cond"]
                 ctx.R.fail("GLUE-1", mod, c, f"`{norm(c)}` can run while the {kind} glue reference of the same module is still registered: it is left behind and runs at a later scan "
-                           "(both kinds for one module / the same glue twice)", construct=f"{norm(c)} not dominated by the {kind} pop")
+                           "(both kinds for one module / the same glue twice)"
+                           + (f"; the only removal, in `{condn[0]}`, is short-circuited away whenever the other operand is truthy" if condn else ""),
+                           construct=f"{norm(c)} not dominated by the {kind} pop")
     # ---- GLUE-2 exclusive, module-provided first
     bn = bsrc[0][0]
     mn = msrc[0][0]
@@ -591,7 +608,7 @@ def glue13(ctx: Ctx) -> None:
         raise AnalysisError("GLUE-13: the installer takes no module-provided reference")
 
     def builtin_src_before(st_: ast.AST) -> bool:
-        return any(removing and b_.lineno < st_.lineno for _, _, b_, removing in bsrc)
+        return any(removing is True and b_.lineno < st_.lineno for _, _, b_, removing in bsrc)
 
     look = [st for _, _, st, _ in msrc]
     for st in walk_scope(inst):
